@@ -118,7 +118,7 @@ Section Inv.
     I_obs : forall u, reads s u = snd (alone (trace s u));
   }.
 
-  Lemma inv_init progs : Inv (init progs).
+  Lemma inv_init progs : Inv (init hs progs).
   Proof.
     split; simpl.
     - intros u. unfold tclause. simpl. repeat split; try discriminate; tauto.
